@@ -20,6 +20,24 @@ Flow (DESIGN.md section 5, C18; specification /verif/spec/NGrid.tla):
     ObsRunConforms; all mismatches are printed and reported).
 No tolerance is involved: |values| < 2^31, sums of products of small integers are exact in
 binary64; a float result that is not an exact integer is itself reported.
+
+Audit extension (all stated in NGrid.tla, sections "C18 audit"):
+ * catalogue: a planar (2-D points) grid and a grid WITHOUT points (size 0: empty product, integral 0);
+ * chunk size Huge = 10^9 next to 1..total+1 (model run and observation);
+ * the instance is enumerated a second time after all integrals, with half-consumed generators of the first
+   enumeration still alive (ObsReEnumConforms);
+ * "separable => product of single-grid integrals" on the implementation: Grid.integrate of every domain on
+   the TLC-emitted factor values must be NGrid!Single and their product the observed multi-domain integral
+   (ObsSinglesConform);
+ * FORMS (NGrid!FormOf, drawn per configuration from pools in the specification as a function of VERIF_SEED):
+   dtype of weight / point arrays (f8, i8, i4, f4, longdouble), dyadic non-integer weights w/2^a, affine
+   non-integer points, dyadic integrand values, 1-D points as (n,1) columns, class of the grid objects
+   (Grid/OneDGrid, LocalGrid, a subclass that overrides `points` the way AtomGrid does), ONE object for equal
+   list entries, return type of the integrand (python float/int, numpy scalars, 0-d, int / float32 /
+   longdouble / non-contiguous / read-only arrays), call form (keywords, positional, numpy scalars; the
+   vectorised call with explicit non_vectorized=False and a chunk size), order enumeration <-> integrals.
+   Law: observation * 2^(known exponent) = NestedSum - still exact, no tolerance (dyadic scaling is exact in
+   binary floating point; binary32 everywhere is excluded by the specification because it cannot hold the sums).
 """
 from __future__ import annotations
 
@@ -34,7 +52,11 @@ from ..evidence import Report
 PROP = "C18"
 BAD = -2000000000          # marks "exception / not an integer" in the integer observation arrays
 INVARIANTS = ("ResultIsNestedSum SeparableIsProduct Aligned VAligned NothingDropped AllConsumed "
-              "ShortcutOnlyForOneDomain SizeLaw OdometerOrder ObsCfgConforms ObsRunConforms").split()
+              "ShortcutOnlyForOneDomain SizeLaw OdometerOrder ObsCfgConforms ObsRunConforms "
+              "ObsReEnumConforms ObsSinglesConform FormsWellFormed ObsFormCfgConforms ObsFormRunConforms "
+              "BigWellFormed ObsBigConforms").split()
+HUGE = 10 ** 9             # NGrid!Huge
+WORKERS = 8
 NF = 6
 FNAMES = {1: "one", 2: "prod S(p_d)", 3: "prod (Q(p_d)+d)", 4: "sum d*S(p_d)", 5: "sum_d prod_{e<=d} S(p_e)",
           6: "(sum S(p_d))^2 - Q(p_n)"}
@@ -45,6 +67,11 @@ CAT_QUICK = [
     {"pd": 1, "w": [1, 4, -2], "p": [[3], [0], [-2]]},
     {"pd": 3, "w": [3, 1], "p": [[0, 1, -1], [2, 0, 1]]},
     {"pd": 3, "w": [2, 1, 3], "p": [[1, 1, 0], [-1, 0, 2], [0, -2, 1]]},
+]
+# audit: a planar grid (2-D points) and a grid without points
+CAT_EXTRA = [
+    {"pd": 2, "w": [-1, 3], "p": [[2, -1], [0, 1]]},
+    {"pd": 1, "w": [], "p": []},
 ]
 
 
@@ -57,22 +84,47 @@ def _random_grid(rng, pd, n):
     return {"pd": pd, "w": [rng.choice([-2, -1, 1, 2, 3, 4]) for _ in range(n)], "p": [list(p) for p in pts]}
 
 
+def _big_grids():
+    """Two deterministic larger grids (appended to the catalogue; far too large for the exhaustive list): 1-D with 20
+    unsorted points, 3-D with 90 points.  Magnitudes keep sum |W||F| of every integrand below 2^31 (TLC integers)."""
+    rng = random.Random(18)
+    p1 = list(range(-10, 10))
+    rng.shuffle(p1)
+    lattice = [(a, b, c) for a in range(-2, 3) for b in range(-2, 3) for c in range(-2, 3)]
+    rng.shuffle(lattice)
+    w1 = [[1, -1, 2, 1][i % 4] for i in range(20)]
+    w3 = [[1, 2, -1, 1, -2, 3][i % 6] for i in range(90)]
+    return [{"pd": 1, "w": w1, "p": [[v] for v in p1]}, {"pd": 3, "w": w3, "p": [list(v) for v in lattice[:90]]}]
+
+
 def params(tier, seed):
+    """Cat = the NSmall exhaustively combined grids + the two big grids (indices nb+1, nb+2: only in BigCfgs)."""
     if tier == "quick":
-        return dict(Cat=CAT_QUICK, MaxDomains=3, MaxTotal=27)
+        cat = CAT_QUICK + CAT_EXTRA
+        nb = len(cat)
+        return dict(Cat=cat + _big_grids(), NSmall=nb, MaxDomains=3, MaxTotal=27,
+                    BigCfgs=[{"rep": True, "nd": 3, "gl": [nb + 1]}])
     rng = random.Random(seed)
     cat = [CAT_QUICK[0], CAT_QUICK[1], CAT_QUICK[4],
-           _random_grid(rng, 1, 4), _random_grid(rng, 3, 4), _random_grid(rng, 1, 3), _random_grid(rng, 3, 2)]
-    return dict(Cat=cat, MaxDomains=4, MaxTotal=36)
+           _random_grid(rng, 1, 4), _random_grid(rng, 3, 4), _random_grid(rng, 1, 3), _random_grid(rng, 3, 2),
+           _random_grid(rng, 2, 3), CAT_EXTRA[1]]
+    nb = len(cat)
+    return dict(Cat=cat + _big_grids(), NSmall=nb, MaxDomains=4, MaxTotal=36,
+                BigCfgs=[{"rep": True, "nd": 3, "gl": [nb + 1]}, {"rep": False, "nd": 2, "gl": [nb + 2, nb + 2]},
+                         {"rep": False, "nd": 3, "gl": [nb + 1, nb + 2, 4]}])
 
 
-def write_gen(wd, par, obs_file=None, skew=0):
+def write_gen(wd, par, obs_file=None, skew=0, seed=0, obsf_file=None, obsb_file=None):
     lines = ["---- MODULE Gen_ngrid ----",
              "\\* generated by vf/props/c18.py: tier parameters and recorded observations",
              "EXTENDS Integers, Sequences, TLC, Json",
              "Cat == " + tlc.tla([{"pd": g["pd"], "w": g["w"], "p": g["p"]} for g in par["Cat"]]),
-             f"MaxDomains == {par['MaxDomains']}", f"MaxTotal == {par['MaxTotal']}", f"Skew == {skew}"]
+             f"MaxDomains == {par['MaxDomains']}", f"MaxTotal == {par['MaxTotal']}", f"Skew == {skew}",
+             f"Seed == {int(seed) % 1000003}", f"NSmall == {par.get('NSmall', len(par['Cat']))}",
+             "BigCfgs == " + tlc.tla([{"rep": bool(c["rep"]), "nd": c["nd"], "gl": c["gl"]} for c in par.get("BigCfgs", [])])]
     lines.append(f'Obs == JsonDeserialize("{obs_file}")' if obs_file else "Obs == <<>>")
+    lines.append(f'ObsF == JsonDeserialize("{obsf_file}")' if obsf_file else "ObsF == <<>>")
+    lines.append(f'ObsBig == JsonDeserialize("{obsb_file}")' if obsb_file else "ObsBig == <<>>")
     lines.append("====")
     (wd / "Gen_ngrid.tla").write_text("\n".join(lines) + "\n")
 
@@ -83,8 +135,15 @@ EXTENDS NGrid
 CfgJson(k) ==
     LET cf == Configs[k] IN
     [rep |-> cf.rep, nd |-> cf.nd, gl |-> cf.gl, total |-> Total(cf),
+     ftab |-> [fi \in 1..NF |-> [t \in 1..Total(cf) |-> <<EnumDecl(cf)[t], FVal(cf, fi, EnumDecl(cf)[t])>>]],
+     fact |-> [fi \in 1..3 |-> [d \in 1..cf.nd |-> [i \in 1..GSize(Dom(cf)[d]) |-> Factor(fi, d, Cat[Dom(cf)[d]].p[i])]]],
+     form |-> FormOf(k), we |-> WE(cf, FormOf(k))]
+BigJson(b) ==
+    LET cf == BigCfgs[b] IN
+    [rep |-> cf.rep, nd |-> cf.nd, gl |-> cf.gl, total |-> Total(cf), chunks |-> BigChunks(cf),
      ftab |-> [fi \in 1..NF |-> [t \in 1..Total(cf) |-> <<EnumDecl(cf)[t], FVal(cf, fi, EnumDecl(cf)[t])>>]]]
-ASSUME JsonSerialize("ngrid_cases.json", [cat |-> Cat, cfgs |-> [k \in 1..Len(Configs) |-> CfgJson(k)]])
+ASSUME JsonSerialize("ngrid_cases.json", [cat |-> Cat, cfgs |-> [k \in 1..Len(Configs) |-> CfgJson(k)],
+                                          bigs |-> [b \in 1..Len(BigCfgs) |-> BigJson(b)]])
 ====
 """
 
@@ -120,7 +179,7 @@ def _vec_fn(table):
     def f(*args):
         pre = tuple(_key(p) for p in args[:-1])
         x = np.asarray(args[-1], dtype=float)
-        rows = x.reshape(len(x), -1)
+        rows = x.reshape(len(x), -1) if len(x) else []
         k = (pre, tuple(_key(r) for r in rows))
         if k not in memo:
             memo[k] = np.array([float(table[pre + (kr,)]) for kr in k[1]])
@@ -138,14 +197,18 @@ def _to_int(x):
     return int(round(v))
 
 
+def _arrays(c):
+    pts = np.array(c["p"], dtype=float).reshape(len(c["p"]), c["pd"])
+    return pts, np.array(c["w"], dtype=float)
+
+
 def _build(cat, cfg):
     from grid.basegrid import Grid, OneDGrid
     from grid.ngrid import MultiDomainGrid
     grids = []
     for g in cfg["gl"]:
         c = cat[g - 1]
-        pts = np.array(c["p"], dtype=float)
-        w = np.array(c["w"], dtype=float)
+        pts, w = _arrays(c)
         if c["pd"] == 1:   # 1-D grids: scalar points; catalogue entries 1, 5, ... as OneDGrid (a Grid subclass)
             grids.append(OneDGrid(pts[:, 0].copy(), w) if g % 4 == 1 else Grid(pts[:, 0].copy(), w))
         else:
@@ -153,30 +216,44 @@ def _build(cat, cfg):
     return MultiDomainGrid(grids, num_domains=cfg["nd"]) if cfg["rep"] else MultiDomainGrid(grids)
 
 
+def _tables(cat, cfg):
+    doms = cfg["gl"] * cfg["nd"] if cfg["rep"] else cfg["gl"]
+    out = []
+    for fi in range(1, NF + 1):
+        table = {}
+        for mi, val in cfg["ftab"][fi - 1]:
+            table[tuple(tuple(cat[doms[d] - 1]["p"][i - 1]) for d, i in enumerate(mi))] = val
+        out.append(table)
+    return out
+
+
 def observe(cat, cfg):
     """Observation record of one configuration; exceptions become BAD entries."""
     total = cfg["total"]
+    nd = cfg["nd"]
     o = {"st": "ok", "nd": BAD, "size": BAD, "pts": [], "wts": [], "vec": [BAD] * NF, "dflt": [BAD] * NF,
-         "pbp": [[BAD] * (total + 1) for _ in range(NF)]}
+         "pbp": [[BAD] * (total + 2) for _ in range(NF)],          # chunk sizes 1..total+1 and HUGE
+         "size2": BAD, "pts2": [], "wts2": [], "single": [[BAD] * nd for _ in range(3)]}
     notes = []
     try:
         mg = _build(cat, cfg)
     except Exception as e:
         o["st"] = f"ctor:{type(e).__name__}"
         return o, [f"constructor: {type(e).__name__}: {e}"]
+    alive = []
     try:
         o["nd"] = _to_int(mg.num_domains)
         o["size"] = _to_int(mg.size)
         o["pts"] = [[list(_key(p)) for p in tup] for tup in mg.points]
         o["wts"] = [_to_int(w) for w in mg.weights]
+        # generators of a further enumeration that stay half-consumed while everything below happens
+        alive = [mg.points, mg.weights]
+        for it in alive:
+            next(it, None)
     except Exception as e:
         o["st"] = f"enum:{type(e).__name__}"
         notes.append(f"size/points/weights: {type(e).__name__}: {e}")
-    doms = cfg["gl"] * cfg["nd"] if cfg["rep"] else cfg["gl"]
-    for fi in range(1, NF + 1):
-        table = {}
-        for mi, val in cfg["ftab"][fi - 1]:
-            table[tuple(tuple(cat[doms[d] - 1]["p"][i - 1]) for d, i in enumerate(mi))] = val
+    for fi, table in enumerate(_tables(cat, cfg), start=1):
         fpt, fvec = _point_fn(table), _vec_fn(table)
         try:
             first = _to_int(mg.integrate(fvec))
@@ -192,18 +269,254 @@ def observe(cat, cfg):
             o["dflt"][fi - 1] = _to_int(mg.integrate(fpt, non_vectorized=True))
         except Exception as e:
             notes.append(f"integrate(non_vectorized, default chunk) f{fi}: {type(e).__name__}: {e}")
-        for c in range(1, total + 2):
+        for pos, c in enumerate(list(range(1, total + 2)) + [HUGE]):
             try:
-                o["pbp"][fi - 1][c - 1] = _to_int(mg.integrate(fpt, non_vectorized=True, integration_chunk_size=c))
+                o["pbp"][fi - 1][pos] = _to_int(mg.integrate(fpt, non_vectorized=True, integration_chunk_size=c))
+            except Exception as e:
+                if len(notes) < 6:
+                    notes.append(f"integrate(non_vectorized, chunk={c}) f{fi}: {type(e).__name__}: {e}")
+    # separable integrands: the single-grid integrals of the factors (factor values emitted by TLC)
+    for fi in range(1, 4):
+        for d in range(nd):
+            try:
+                gd = mg.grid_list[0] if cfg["rep"] else mg.grid_list[d]
+                o["single"][fi - 1][d] = _to_int(gd.integrate(np.array(cfg["fact"][fi - 1][d], dtype=float)))
+            except Exception as e:
+                if len(notes) < 6:
+                    notes.append(f"Grid.integrate of domain {d + 1}, factor of f{fi}: {type(e).__name__}: {e}")
+    # the same instance enumerated again, after all the integrals
+    try:
+        o["size2"] = _to_int(mg.size)
+        o["pts2"] = [[list(_key(p)) for p in tup] for tup in mg.points]
+        o["wts2"] = [_to_int(w) for w in mg.weights]
+        for it in alive:
+            next(it, None)
+    except Exception as e:
+        notes.append(f"second enumeration: {type(e).__name__}: {e}")
+    return o, notes
+
+
+# ---------------------------------------------------------------------------------------------
+# forms (NGrid!FormOf): the same configuration presented differently
+
+_DT = {"f8": np.float64, "i8": np.int64, "i4": np.int32, "f4": np.float32, "f16": np.longdouble}
+_CLS = {}
+
+
+def _shift_classes():
+    """Subclasses that keep centred points and override the `points` property, as AtomGrid does."""
+    if not _CLS:
+        from grid.basegrid import Grid, OneDGrid
+
+        class ShiftGrid(Grid):
+            def __init__(self, points, weights, center):
+                super().__init__(points - center, weights)
+                self._center = center
+
+            @property
+            def points(self):
+                return self._points + self._center
+
+        class ShiftOneDGrid(OneDGrid):
+            def __init__(self, points, weights, center):
+                super().__init__(points - center, weights)
+                self._center = center
+
+            @property
+            def points(self):
+                return self._points + self._center
+        _CLS.update(ShiftGrid=ShiftGrid, ShiftOneDGrid=ShiftOneDGrid)
+    return _CLS
+
+
+def _form_grid(c, g, form):
+    from grid.basegrid import Grid, LocalGrid, OneDGrid
+    pts, w = _arrays(c)
+    w = (w / 2.0 ** form["wsh"][g - 1]).astype(_DT[form["wdt"]])
+    pts = (pts / 2.0 ** form["psh"] + form["pof"] / 8.0).astype(_DT[form["pdt"]])
+    flat = c["pd"] == 1 and not form["col"]
+    if flat:
+        pts = pts[:, 0].copy()
+    cls = form["cls"]
+    if cls == "Local":
+        center = pts.dtype.type(0) if flat else np.zeros(pts.shape[1], dtype=pts.dtype)
+        return LocalGrid(pts, w, center)
+    if cls == "Shift":
+        center = pts.dtype.type(3) if flat else np.arange(3, 3 + pts.shape[1]).astype(pts.dtype)
+        k = _shift_classes()
+        return (k["ShiftOneDGrid"] if flat and g % 2 else k["ShiftGrid"])(pts, w, center)
+    return OneDGrid(pts, w) if flat and g % 4 == 1 else Grid(pts, w)
+
+
+def _build_form(cat, cfg, form):
+    from grid.ngrid import MultiDomainGrid
+    grids, made = [], {}
+    for g in cfg["gl"]:
+        if form["alias"] and g in made:
+            grids.append(made[g])        # ONE object for equal entries of the list
+            continue
+        made[g] = _form_grid(cat[g - 1], g, form)
+        grids.append(made[g])
+    return MultiDomainGrid(grids, num_domains=cfg["nd"]) if cfg["rep"] else MultiDomainGrid(grids)
+
+
+def _fkey(p, form):
+    a = np.atleast_1d(np.asarray(p, dtype=float))
+    return tuple(int(round(float(v))) for v in (a - form["pof"] / 8.0) * 2.0 ** form["psh"])
+
+
+_RETP = {"float": float, "int": lambda v: int(round(v)), "f8": np.float64, "f4": np.float32,
+         "0d": lambda v: np.array(v), "f16": np.longdouble}
+
+
+def _ret_array(vals, kind):
+    if kind == "i8":
+        return vals.astype(np.int64)
+    if kind == "f4":
+        return vals.astype(np.float32)
+    if kind == "f16":
+        return vals.astype(np.longdouble)
+    if kind == "strided":
+        return np.repeat(vals, 2)[::2]
+    if kind == "readonly":
+        vals = vals.copy()
+        vals.setflags(write=False)
+    return vals
+
+
+def _form_point_fn(table, form):
+    conv, sc = _RETP[form["retp"]], 2.0 ** form["fshp"]
+
+    def f(*pts):
+        return conv(table[tuple(_fkey(p, form) for p in pts)] / sc)
+    return f
+
+
+def _form_vec_fn(table, form):
+    memo, sc = {}, 2.0 ** form["fshv"]
+
+    def f(*args):
+        pre = tuple(_fkey(p, form) for p in args[:-1])
+        x = np.asarray(args[-1], dtype=float)
+        rows = x.reshape(len(x), -1) if len(x) else []
+        k = (pre, tuple(_fkey(r, form) for r in rows))
+        if k not in memo:
+            memo[k] = _ret_array(np.array([table[pre + (kr,)] / sc for kr in k[1]], dtype=float), form["retv"])
+        return memo[k]
+    return f
+
+
+def observe_form(cat, cfg):
+    """Observation of the configuration in its form cfg["form"]; every number is multiplied by the power of two the
+    specification names (exact), so that integers are handed to the judge."""
+    form, we, total = cfg["form"], cfg["we"], cfg["total"]
+    o = {"st": "ok", "nd": BAD, "size": BAD, "pts": [], "wts": [], "vec": [BAD] * NF, "vecx": [BAD] * NF,
+         "pbp": [[BAD] * 3 for _ in range(NF)]}
+    notes = []
+    try:
+        mg = _build_form(cat, cfg, form)
+    except Exception as e:
+        o["st"] = f"ctor:{type(e).__name__}"
+        return o, [f"constructor: {type(e).__name__}: {e}"]
+
+    def enum():
+        try:
+            o["nd"] = _to_int(mg.num_domains)
+            o["size"] = _to_int(mg.size)
+            o["pts"] = [[list(_fkey(p, form)) for p in tup] for tup in mg.points]
+            o["wts"] = [_to_int(w * 2.0 ** we) for w in mg.weights]
+        except Exception as e:
+            o["st"] = f"enum:{type(e).__name__}"
+            notes.append(f"size/points/weights: {type(e).__name__}: {e}")
+
+    call = form["call"]
+    c1 = form["chunks"][0]
+
+    def vec_again(f):
+        if call == "kw":
+            return mg.integrate(f, non_vectorized=False, integration_chunk_size=c1)
+        if call == "pos":
+            return mg.integrate(f, False, c1)
+        return mg.integrate(f, np.False_, np.int64(c1))
+
+    def pbp(f, c):
+        if call == "kw":
+            return mg.integrate(f, non_vectorized=True, integration_chunk_size=c)
+        if call == "pos":
+            return mg.integrate(f, True, c)
+        return mg.integrate(f, np.True_, np.int64(c))
+
+    if form["first"] == "enum":
+        enum()
+    for fi, table in enumerate(_tables(cat, cfg), start=1):
+        fpt, fvec = _form_point_fn(table, form), _form_vec_fn(table, form)
+        sv, sp = 2.0 ** (we + form["fshv"]), 2.0 ** (we + form["fshp"])
+        try:
+            o["vec"][fi - 1] = _to_int(mg.integrate(fvec) * sv)
+        except Exception as e:
+            notes.append(f"integrate(vectorised) f{fi}: {type(e).__name__}: {e}")
+        try:
+            o["vecx"][fi - 1] = _to_int(vec_again(fvec) * sv)
+        except Exception as e:
+            notes.append(f"integrate(non_vectorized=False, chunk={c1}; {call}) f{fi}: {type(e).__name__}: {e}")
+        for pos, c in enumerate(form["chunks"]):
+            try:
+                o["pbp"][fi - 1][pos] = _to_int(pbp(fpt, c) * sp)
+            except Exception as e:
+                if len(notes) < 6:
+                    notes.append(f"integrate(non_vectorized, chunk={c}; {call}) f{fi}: {type(e).__name__}: {e}")
+    if form["first"] != "enum":
+        enum()
+    return o, notes
+
+
+def observe_big(cat, cfg):
+    """A configuration with more points than the default integration_chunk_size: enumeration, vectorised (twice),
+    point-by-point with the default chunk size (several chunks!) and with the chunk sizes NGrid!BigChunks."""
+    o = {"st": "ok", "nd": BAD, "size": BAD, "pts": [], "wts": [], "vec": [BAD] * NF, "dflt": [BAD] * NF,
+         "pbp": [[BAD] * len(cfg["chunks"]) for _ in range(NF)]}
+    notes = []
+    try:
+        mg = _build(cat, cfg)
+        o["nd"] = _to_int(mg.num_domains)
+        o["size"] = _to_int(mg.size)
+        o["pts"] = [[list(_key(p)) for p in tup] for tup in mg.points]
+        o["wts"] = [_to_int(w) for w in mg.weights]
+    except Exception as e:
+        o["st"] = f"enum:{type(e).__name__}"
+        return o, [f"constructor/size/points/weights: {type(e).__name__}: {e}"]
+    for fi, table in enumerate(_tables(cat, cfg), start=1):
+        fpt, fvec = _point_fn(table), _vec_fn(table)
+        try:
+            first = _to_int(mg.integrate(fvec))
+            again = _to_int(mg.integrate(fvec))
+            o["vec"][fi - 1] = again if again == first else BAD
+        except Exception as e:
+            notes.append(f"integrate(vectorised) f{fi}: {type(e).__name__}: {e}")
+        try:
+            o["dflt"][fi - 1] = _to_int(mg.integrate(fpt, non_vectorized=True))
+        except Exception as e:
+            notes.append(f"integrate(non_vectorized, default chunk) f{fi}: {type(e).__name__}: {e}")
+        for pos, c in enumerate(cfg["chunks"]):
+            try:
+                o["pbp"][fi - 1][pos] = _to_int(mg.integrate(fpt, non_vectorized=True, integration_chunk_size=c))
             except Exception as e:
                 if len(notes) < 6:
                     notes.append(f"integrate(non_vectorized, chunk={c}) f{fi}: {type(e).__name__}: {e}")
     return o, notes
 
 
+def form_name(form):
+    return (f"w={form['wdt']}/2^{max(form['wsh'])},p={form['pdt']}/2^{form['psh']}+{form['pof']}/8,"
+            f"{'col,' if form['col'] else ''}{form['cls']}{',alias' if form['alias'] else ''},ret={form['retv']}/{form['retp']},"
+            f"call={form['call']},first={form['first']}")
+
+
 def _worker(args):
     cat, chunk = args
-    return [(k, *observe(cat, cfg)) for k, cfg in chunk]
+    if chunk and chunk[0][0] < 0:          # a big configuration (index -b)
+        return [(k, *observe_big(cat, cfg), None, None) for k, cfg in chunk]
+    return [(k, *observe(cat, cfg), *observe_form(cat, cfg)) for k, cfg in chunk]
 
 
 def cfg_name(cat, cfg):
@@ -222,35 +535,61 @@ def run(tier: str) -> int:
 def _execute(rep, tier, skew=0, tag=None):
     par = params(tier, rep.seed)
     wd = tlc.scratch(f"{PROP}-{tag or tier}")
-    write_gen(wd, par)
+    write_gen(wd, par, seed=rep.seed)
     data, r_emit = emit_cases(wd)
     rep.tlc(r_emit, "Emit_ngrid")
     cat, cfgs = data["cat"], data["cfgs"]
 
-    jobs = [(cat, [(k, cfgs[k]) for k in range(i, len(cfgs), 48)]) for i in range(48)]
+    bigs = data.get("bigs", [])
+    jobs = [(cat, [(-(b + 1), bigs[b])]) for b in range(len(bigs))]          # the long jobs first
+    jobs += [(cat, [(k, cfgs[k]) for k in range(i, len(cfgs), 48)]) for i in range(48)]
     obs = [None] * len(cfgs)
-    notes = {}
+    obsb = [None] * len(bigs)
+    bnotes = {}
+    obsf = [None] * len(cfgs)
+    notes, fnotes = {}, {}
     import multiprocessing as mp
-    with mp.get_context("fork").Pool(16) as pool:
+    with mp.get_context("fork").Pool(WORKERS) as pool:
         for part in pool.imap_unordered(_worker, jobs):
-            for k, o, nt in part:
-                obs[k] = o
+            for k, o, nt, of, fnt in part:
+                if k < 0:
+                    obsb[-k - 1] = o
+                    bnotes[-k - 1] = nt
+                    continue
+                obs[k], obsf[k] = o, of
                 if nt:
                     notes[k] = nt
+                if fnt:
+                    fnotes[k] = fnt
     ncalls = 0
     for k, cfg in enumerate(cfgs):
-        ncalls += NF * (cfg["total"] + 3)
-        rep.evaluated(NF * (cfg["total"] + 3) + 1, (cfg["rep"], cfg["nd"], tuple(cfg["gl"])))
+        n = NF * (cfg["total"] + 4) + 3 * cfg["nd"] + NF * 5
+        ncalls += n
+        rep.evaluated(n + 3, (cfg["rep"], cfg["nd"], tuple(cfg["gl"])))
+    for b, cfg in enumerate(bigs):
+        n = NF * (len(cfg["chunks"]) + 3)
+        ncalls += n
+        rep.evaluated(n + 1, ("big", cfg["rep"], cfg["nd"], tuple(cfg["gl"])))
+    (wd / "obsb_ngrid.json").write_text(json.dumps(obsb))
+    rep.set("large_configurations", [f"{cfg_name(cat, c)}: {c['total']} points, chunk sizes {c['chunks']}" for c in bigs])
     rep.set("configurations", len(cfgs))
     rep.set("integrate_calls", ncalls)
     (wd / "obs_ngrid.json").write_text(json.dumps(obs))
+    (wd / "obsf_ngrid.json").write_text(json.dumps(obsf))
     for k in (0, len(cfgs) // 3, len(cfgs) // 2, len(cfgs) - 1):
         rep.sample({"config": cfg_name(cat, cfgs[k]), "total": cfgs[k]["total"], "size": obs[k]["size"],
-                    "weights": obs[k]["wts"][:8], "vectorised": obs[k]["vec"], "point_by_point_chunk1": [r[0] for r in obs[k]["pbp"]]})
+                    "weights": obs[k]["wts"][:8], "vectorised": obs[k]["vec"], "point_by_point_chunk1": [r[0] for r in obs[k]["pbp"]],
+                    "form": form_name(cfgs[k]["form"]), "form_vectorised_scaled": obsf[k]["vec"]})
+    pools = {}
+    for cfg in cfgs:
+        for fld in ("wdt", "pdt", "cls", "retv", "retp", "call", "first", "col", "alias"):
+            pools.setdefault(fld, {}).setdefault(str(cfg["form"][fld]), 0)
+            pools[fld][str(cfg["form"][fld])] += 1
+    rep.set("forms_drawn", pools)
 
-    write_gen(wd, par, obs_file="obs_ngrid.json", skew=skew)
+    write_gen(wd, par, obs_file="obs_ngrid.json", skew=skew, seed=rep.seed, obsf_file="obsf_ngrid.json", obsb_file="obsb_ngrid.json")
     (wd / "MC_NGrid.cfg").write_text("SPECIFICATION Spec\n" + "".join(f"INVARIANT {i}\n" for i in INVARIANTS))
-    res = tlc.run_tlc("NGrid", wd / "MC_NGrid.cfg", wd, workers=16, timeout=3000, coverage=(tier == "quick")).require_ok("MC_NGrid")
+    res = tlc.run_tlc("NGrid", wd / "MC_NGrid.cfg", wd, workers=WORKERS, timeout=3000, coverage=(tier == "quick")).require_ok("MC_NGrid")
     rep.tlc(res, "MC_NGrid")
     if res.status == "ok" and tier == "quick":   # vacuity guard (action coverage is collected in the quick tier only: it costs ~50% CPU): every action of the algorithm was taken
         idle = [a for a in ("PickCfg", "PickRun", "Start", "VStep", "PNextW", "PNextV", "PAcc") if res.coverage.get(a, (0, 0))[0] == 0]
@@ -262,18 +601,62 @@ def _execute(rep, tier, skew=0, tag=None):
         name = cfg_name(cat, cfgs[k - 1]) if isinstance(k, int) and 1 <= k <= len(cfgs) else "?"
         rep.violation(f"model:{','.join(res.violated)}:{name}:f={st.get('n_fi')}:{st.get('n_route')}:chunk={st.get('n_chunk')}",
                       f"TLC: invariant(s) {res.violated} of NGrid.tla violated (algorithm of ngrid.py vs. nested-sum definition)", st)
-    njudged = 0
     for t in tlc.tagged(res.stdout, "MISMATCH"):
         k = t[2]
+        if t[1] in ("bigcfg", "bigrun"):
+            cfg, o = bigs[k - 1], obsb[k - 1]
+            name = cfg_name(cat, cfg)
+            nt = "; ".join((bnotes.get(k - 1) or [])[:3])
+            slim = {f: o[f] for f in ("st", "nd", "size", "vec", "dflt", "pbp")}
+            if t[1] == "bigcfg":
+                rep.violation(f"large-enumeration:{name}",
+                              f"{cfg['total']} points: num_domains/size/points/weights differ from the product set in product order: status "
+                              f"{o['st']}, num_domains {o['nd']}, size {o['size']}, weights {o['wts'][:8]} {nt}",
+                              {"big": {f: cfg[f] for f in ("rep", "nd", "gl", "total", "chunks")}, "tier": tier, "observed": slim})
+            else:
+                fi, exp = t[3], t[4]
+                rep.violation(f"large-integrate:f={fi}:{name}",
+                              f"{cfg['total']} points (more than the default chunk size 6000), integrand {FNAMES[fi]}: nested sum {exp}; "
+                              f"vectorised {o['vec'][fi - 1]}, point-by-point default chunk {o['dflt'][fi - 1]}, chunk sizes "
+                              f"{cfg['chunks']}: {o['pbp'][fi - 1]} ({BAD} = exception or non-integer) {nt}",
+                              {"big": {f: cfg[f] for f in ("rep", "nd", "gl", "total", "chunks")}, "tier": tier, "fi": fi, "expected": exp,
+                               "observed": slim})
+            continue
         cfg = cfgs[k - 1]
         name = cfg_name(cat, cfg)
         nt = "; ".join(notes.get(k - 1, [])[:3])
+        fnt = "; ".join(fnotes.get(k - 1, [])[:3])
+        o, of = obs[k - 1], obsf[k - 1]
         if t[1] == "cfg":
-            o = obs[k - 1]
             rep.violation(f"enumeration:{name}",
                           f"num_domains/size/points/weights of MultiDomainGrid differ from the product set in product order: "
                           f"status {o['st']}, num_domains {o['nd']}, size {o['size']} (specification: {cfg['nd']}, {cfg['total']}), "
                           f"weights {o['wts'][:12]} {nt}", {"config": cfg, "cat": cat, "observed": o})
+        elif t[1] == "cfg2":
+            rep.violation(f"re-enumeration:{name}",
+                          f"size/points/weights enumerated again after the integrals (half-consumed generators alive) differ from the "
+                          f"product set: size {o['size2']} (specification: {cfg['total']}), weights {o['wts2'][:12]} {nt}",
+                          {"config": cfg, "cat": cat, "observed": o})
+        elif t[1] == "single":
+            _, _, _, _, fi, exp, got, vec = t
+            rep.violation(f"separable:f={fi}:{name}",
+                          f"separable integrand {FNAMES[fi]}: single-grid integrals (Grid.integrate per domain) {got}, specification {exp}; "
+                          f"their product must be the multi-domain integral, observed {vec} {nt}",
+                          {"config": cfg, "cat": cat, "fi": fi, "kind": "single", "expected": exp, "observed": o})
+        elif t[1] == "fcfg":
+            rep.violation(f"form-enumeration:{name}:{form_name(cfg['form'])}",
+                          f"num_domains/size/points/weights (weights * 2^{cfg['we']}) in this form differ from the product set: status "
+                          f"{of['st']}, num_domains {of['nd']}, size {of['size']} (specification: {cfg['nd']}, {cfg['total']}), "
+                          f"weights {of['wts'][:12]} {fnt}", {"config": cfg, "cat": cat, "kind": "form", "observed": of})
+        elif t[1] == "frun":
+            _, _, _, _, fi, route, chunk, exp, got = t
+            what = (f"vectorised: integrate(f) and integrate(f, False, {cfg['form']['chunks'][0]})" if route == "vec"
+                    else f"non_vectorized, integration_chunk_size={chunk} (entries for chunk sizes {cfg['form']['chunks']})")
+            rep.violation(f"form-integrate:{route}:chunk={chunk}:f={fi}:{name}:{form_name(cfg['form'])}",
+                          f"integrate ({what}) of integrand {FNAMES[fi]} in this form: nested sum is {exp}, implementation returned "
+                          f"(times the power of two of the form) {got} ({BAD} = exception or not the exact value) {fnt}",
+                          {"config": cfg, "cat": cat, "kind": "form", "fi": fi, "route": route, "chunk": chunk, "expected": exp,
+                           "observed": of})
         else:
             _, _, _, _, fi, route, chunk, exp, got = t
             what = "vectorised / non_vectorized default chunk" if route == "vec" else f"non_vectorized, integration_chunk_size={chunk}"
@@ -281,12 +664,12 @@ def _execute(rep, tier, skew=0, tag=None):
                           f"integrate ({what}) of integrand {FNAMES[fi]}: nested sum is {exp}, implementation returned {got} "
                           f"({BAD} = exception or non-integer) {nt}",
                           {"config": cfg, "cat": cat, "fi": fi, "route": route, "chunk": chunk, "expected": exp, "observed": got})
-    rep.set("traces_validated_against_impl", ncalls + len(cfgs))
+    rep.set("traces_validated_against_impl", ncalls + 3 * len(cfgs))
     rep.set("exhaustive", True)
     rep.set("rule", "one case = one call of MultiDomainGrid.integrate (vectorised | non_vectorized with one chunk size) or one "
                     "enumeration of size/points/weights, on a configuration listed by TLC, judged by TLC against "
                     "NGrid!NestedSum / NGrid!EnumDecl; distinct = distinct configuration (mode, num_domains, grid list)")
-    rep.assume("NumPy sums of products of small integers are exact in binary64 (|values| < 2^31)")
+    rep.assume("NumPy sums of products of small integers (times powers of two) are exact in binary64 (|values| < 2^31)")
     rep.assume("Grid.integrate on the last domain is modelled as sum_j w_j v_j (its own correctness belongs to the base grid)")
 
 
@@ -294,11 +677,27 @@ def replay(path: str) -> int:
     with open(path) as f:
         v = json.load(f)
     c = v.get("case") or {}
+    if "big" in c:
+        print("replay: large configuration; rerunning the check")
+        return run(c.get("tier") or v.get("tier", "quick"))
     if "config" in c and "cat" in c:
+        if c.get("kind") == "form":
+            o, notes = observe_form(c["cat"], c["config"])
+            print("replay:", cfg_name(c["cat"], c["config"]), form_name(c["config"]["form"]), "size", o["size"], "vec", o["vec"], notes[:3])
+            if "fi" in c:
+                got = ([o["vec"][c["fi"] - 1], o["vecx"][c["fi"] - 1]] if c["route"] == "vec"
+                       else [o["pbp"][c["fi"] - 1][i] for i, ch in enumerate(c["config"]["form"]["chunks"]) if ch == c["chunk"]])
+                return 0 if all(g == c["expected"] for g in got) else 1
+            return 1 if o == c.get("observed") else 0
         o, notes = observe(c["cat"], c["config"])
         print("replay:", cfg_name(c["cat"], c["config"]), "size", o["size"], "vec", o["vec"], notes[:3])
+        if c.get("kind") == "single":
+            vec = o["vec"][c["fi"] - 1]
+            got = o["single"][c["fi"] - 1]
+            return 0 if got == c["expected"] and int(np.prod(got)) == vec else 1
         if "fi" in c:
-            got = o["vec"][c["fi"] - 1] if c["route"] == "vec" else o["pbp"][c["fi"] - 1][c["chunk"] - 1]
+            total = c["config"]["total"]
+            got = o["vec"][c["fi"] - 1] if c["route"] == "vec" else o["pbp"][c["fi"] - 1][total + 1 if c["chunk"] == HUGE else c["chunk"] - 1]
             return 0 if got == c["expected"] else 1
         return 1 if o == c.get("observed") else 0
     print("replay: model-level violation; rerunning the check")
@@ -338,6 +737,27 @@ def _mutants():
          "chunk contribution mean(w)*sum(v): right for chunk size 1 only"),
         ("num_domains_off_for_list_of_one", M, "num_domains", "else len(self.grid_list)", "else max(len(self.grid_list), 2)",
          "a single grid without num_domains counts as two domains"),
+        # ---- audit: mutants that need the new dimensions
+        ("pbp_weights_cast_to_int", M, "integrate", "weights_array = np.array(list(chunk_weights))",
+         "weights_array = np.array(list(chunk_weights), dtype=int)", "non-integer (dyadic) weights only"),
+        ("vec_values_cast_to_int", M, "integrate", "values = np.array(partial_integrand(self.grid_list[-1].points))",
+         "values = np.array(partial_integrand(self.grid_list[-1].points), dtype=int)", "non-integer integrand values only"),
+        ("non_vectorized_is_True", M, "integrate", "if non_vectorized:", "if non_vectorized is True:",
+         "numpy bool for non_vectorized only"),
+        ("explicit_chunk_implies_chunked_route", M, "integrate", "if non_vectorized:",
+         "if non_vectorized or integration_chunk_size != 6000:", "vectorised call with an explicit chunk size only"),
+        ("private_points_of_last_grid", M, "integrate", "values = np.array(partial_integrand(self.grid_list[-1].points))",
+         "values = np.array(partial_integrand(self.grid_list[-1]._points))",
+         "grids whose `points` property is not the stored array (AtomGrid-like subclasses) only"),
+        ("aliased_grids_deduplicated", M, "weights", "*[grid.weights for grid in self.grid_list]",
+         "*[grid.weights for grid in dict.fromkeys(self.grid_list)]", "the same grid OBJECT at several list positions only"),
+        ("empty_product_has_size_one", M, "size", "return np.prod([grid.size for grid in self.grid_list])",
+         "return max(np.prod([grid.size for grid in self.grid_list]), 1)", "a grid without points only"),
+        ("huge_chunk_wraps", ngrid, "_chunked_iterator", "islice(iterator, size)", "islice(iterator, size % 1000000)",
+         "chunk sizes >= 10^6 only"),
+        ("writes_into_integrand_array", M, "integrate", "values = np.array(partial_integrand(self.grid_list[-1].points))",
+         "values = partial_integrand(self.grid_list[-1].points); values *= 1.0",
+         "harmless arithmetic, but fails on read-only / integer arrays returned by the integrand"),
     ]
 
 
